@@ -22,7 +22,7 @@ PROPS = {
         not_decided=[],
     ),
     "C08": dict(
-        units=["T1", "G5a", "G4"],
+        units=["T1", "G5a", "G5c", "G4"],
         level="proof",
         level_text="Claimed for the band-arithmetic and tiling clauses only: the band-count functions are total and in range for all "
                    "u32 sizes, and (G5a) the split arithmetic yields an exact tiling for every part count, so no unwrap in the "
@@ -50,9 +50,10 @@ PROPS = {
         not_decided=[],
     ),
     "C14": dict(
-        units=["G5a", "G4"],
+        units=["G5a", "G5c", "G4"],
         level="proof",
-        level_text="The size arithmetic of the four default split bodies (None-condition, count, order, sizes differing by at most one, "
+        level_text="(G5c: the TypedImageRef / TypedImage split_by_height{,_mut} specialisations tile the pixel BUFFER exactly for all u32 - offsets and "
+                   "lengths in pixels, split_at and constructor preconditions discharged.) The size arithmetic of the four default split bodies (None-condition, count, order, sizes differing by at most one, "
                    "exact cover, every sub-rectangle accepted so no unwrap fires) is proved by Verus for ALL u32 arguments on a "
                    "statement slice. Pixel identity of the returned parts (by address, hence no aliasing) is checked on the real "
                    "containers by bounded Kani harnesses and reported separately.",
@@ -79,7 +80,7 @@ PROPS = {
         not_decided=["sizes beyond 3x3", "SIMD back-ends"],
     ),
     "C03": dict(
-        units=["G1", "G2", "G3", "G4", "G7", "K1", "K2", "K5", "K6", "K7", "A3", "T1", "G5a", "P"],
+        units=["G1", "G2", "G3", "G4", "G7", "K1", "K2", "K5", "K6", "K7", "A3", "T1", "G5a", "G5c", "P"],
         quick_skip=[r"^g5b_", r"^c12_copy_(1x3|3x2|3x3)$", r"^g3_typed_(ref_)?from_buffer_(u8x3|u16x2)$", r"^g8_temp_image_(u16x2|zero)$", r"^k7_u16x1", r"^k8_plan"],
         level="proof",
         level_text="C03 is decided as the conjunction of the safety obligations of the units under contract: arithmetic overflow, division "
